@@ -5,18 +5,21 @@
                                                         -> first external open -> first feed
    and every consumer has an assumption whose failure is a crash:
         jtp cache      : lru.New needs a size > 0 (else the cache is nil and the first fetch dereferences it)
-        ui / splicer   : preload_amount is converted to unsigned sizes: negative => absurd allocation on a feed
+        ui / splicer   : preload_amount is converted to unsigned sizes: negative => absurd allocation on a feed;
+                         every frame walks 2 * preload_amount + 1 positions: an absurd amount freezes the first page
         openExternally : indexes hook[0]
         style          : colour strings are spliced into SGR sequences: must be d;d;d with 0..255
    Variant "pinned": postprocess validates colours only (tree as first received);
-           "fixed" : it also rejects a non-positive cache size, a negative preload amount or timeout and an
-                     empty hook.                                                                       *)
+           "fixed" : it also rejects a non-positive cache size, a negative or absurd preload amount, a negative
+                     timeout and an empty hook.                                                                       *)
 EXTENDS Integers, Sequences, FiniteSets, TLC
 
 Hook     == {"absent", "empty", "program_only", "with_args", "wrong_type"}
-Cache    == {"absent", "negative", "zero", "positive", "wrong_type"}
-Preload  == {"absent", "negative", "zero", "positive", "wrong_type"}
-Timeout  == {"absent", "negative", "zero", "positive", "fractional", "wrong_type"}
+(* "one": the smallest admissible value; "huge": a value near the top of the 64-bit range, which sizes and
+   durations computed from it overflow - it may be refused or accepted, but if accepted it must be safe *)
+Cache    == {"absent", "negative", "zero", "one", "positive", "huge", "wrong_type"}
+Preload  == {"absent", "negative", "zero", "positive", "huge", "wrong_type"}
+Timeout  == {"absent", "negative", "zero", "positive", "huge", "fractional", "wrong_type"}
 Colour   == {"absent", "valid", "empty", "short", "no_hash", "non_hex", "signed", "wrong_type"}
 Shape    == {"ok", "unknown_key", "unknown_table", "syntax_error", "missing_file", "empty_file"}
 Vectors  == [hook : Hook, cache : Cache, preload : Preload, timeout : Timeout, colour : Colour, shape : Shape]
@@ -32,8 +35,9 @@ MustReject(v) ==
     \/ e.colour \in {"empty", "short", "no_hash", "non_hex", "signed", "wrong_type"}
     \/ "wrong_type" \in {e.hook, e.cache, e.preload, e.timeout} \/ e.timeout = "fractional"
 Dangerous(v) ==
-    LET e == Effective(v) IN e.hook = "empty" \/ e.cache \in {"negative", "zero"} \/ e.preload = "negative"
-MustAccept(v) == ~MustReject(v) /\ ~Dangerous(v) /\ Effective(v).timeout # "negative"
+    LET e == Effective(v) IN e.hook = "empty" \/ e.cache \in {"negative", "zero"} \/ e.preload \in {"negative", "huge"}
+Unsettled(v) == LET e == Effective(v) IN "huge" \in {e.cache, e.preload, e.timeout}
+MustAccept(v) == ~MustReject(v) /\ ~Dangerous(v) /\ Effective(v).timeout # "negative" /\ ~Unsettled(v)
 
 Decision(variant, v) ==
     IF MustReject(v) THEN "rejected"
@@ -46,6 +50,7 @@ Crashes(v, step) ==
     CASE step = "fetch" -> e.cache \in {"negative", "zero"}
       [] step = "open"  -> e.hook = "empty"
       [] step = "feed"  -> e.preload = "negative"
+      [] step = "load"  -> e.preload = "huge"       \* every frame walks 2 * preload + 1 positions: the interface freezes
       [] OTHER          -> FALSE
 
 (* C19 on the model *)
